@@ -2,7 +2,7 @@
 from __future__ import annotations
 
 from harness import C07 as _c07
-from harness.rt_entry import ob, sim  # noqa: F401
+from harness.rt_entry import obs_sharded, ob, sim  # noqa: F401
 
 PROPERTY = 'C12'
 LEVEL = 'model_checking'
@@ -16,7 +16,9 @@ ENCODED = _c07.ENCODED + [
 ASSUMPTIONS = _c07.ASSUMPTIONS
 BOUNDS = {
     'quick': 'flat1/flat2; trees cancel_map (cancel right after map of tasks that have children), cancel_after_next, '
-             'cancel_nested, await_cancelled; client cancel and client disconnect while the task runs; <=2 delays',
+             'cancel_nested, await_cancelled; client cancel and client disconnect while the task runs; <=1 delay everywhere '
+             '(message level, line level on the listed trees, mgr2x1 for cancel_map/cancel_nested), <=2 delays for '
+             'cancel_map/cancel_nested on flat1/flat2',
     'thorough': 'adds flat3, mgr2x1, mgr1x2, <=2 delays with rank<=3, line level on flat2 with 1 delay',
 }
 OUTSIDE = _c07.OUTSIDE
@@ -34,6 +36,10 @@ def obligations(tier: str) -> list[dict]:
         for sh in ('cancel_map', 'cancel_after_next', 'cancel_nested'):
             obs.append(ob('line/flat2/%s/K1' % sh, 'flat2', [sh], 'cancel', 1, 240, line=True, maxrank=1))
         obs.append(ob('line/flat1/cancel_nested/K1', 'flat1', ['cancel_nested'], 'cancel', 1, 240, line=True, maxrank=1))
+        for sh, k in (('cancel_map', 1), ('cancel_nested', 2)):
+            obs.extend(obs_sharded(2 * k, 'msg/flat1/%s/K2' % sh, 'flat1', [sh], 'cancel', 2, 240))
+            obs.extend(obs_sharded(3 * k, 'msg/flat2/%s/K2' % sh, 'flat2', [sh], 'cancel', 2, 240))
+            obs.append(ob('msg/mgr2x1/%s/K1' % sh, 'mgr2x1', [sh], 'cancel', 1, 240))
     else:
         for topo in ('flat1', 'flat2', 'flat3', 'mgr2x1', 'mgr1x2'):
             for sh in shapes + ('client_cancel', 'client_disconnect'):
